@@ -33,6 +33,20 @@ pub const F_MAPS: u32 = 256;
 /// /proc/<id>/mem (the second memory-reading strategy)
 pub const F_MEM: u32 = 512;
 
+/// one more path (matched by suffix) that fails with a chosen errno; null = none
+static ONE_PATH: std::sync::atomic::AtomicPtr<(Vec<u8>, i32)> = std::sync::atomic::AtomicPtr::new(std::ptr::null_mut());
+
+/// Runs `f` while opening any path that ends in `suffix` fails with `errno`.
+pub fn with_failing_path<R>(suffix: &[u8], errno: i32, f: impl FnOnce() -> R) -> (R, u32) {
+    let b = Box::into_raw(Box::new((suffix.to_vec(), errno)));
+    DENIED.store(0, Ordering::SeqCst);
+    ONE_PATH.store(b, Ordering::SeqCst);
+    let r = f();
+    ONE_PATH.store(std::ptr::null_mut(), Ordering::SeqCst);
+    drop(unsafe { Box::from_raw(b) });
+    (r, DENIED.load(Ordering::SeqCst))
+}
+
 #[cfg(not(fuzzing))]
 fn denied(p: &[u8], mask: u32) -> bool {
     let ends = |s: &[u8]| p.ends_with(s) && p.starts_with(b"/proc/");
@@ -53,6 +67,12 @@ fn denied(p: &[u8], mask: u32) -> bool {
 
 #[cfg(not(fuzzing))]
 unsafe fn shim(path: *const libc::c_char, flags: libc::c_int, mode: libc::c_uint) -> libc::c_int {
+    let one = ONE_PATH.load(Ordering::SeqCst);
+    if !one.is_null() && !path.is_null() && std::ffi::CStr::from_ptr(path).to_bytes().ends_with(&(*one).0) {
+        DENIED.fetch_add(1, Ordering::SeqCst);
+        *libc::__errno_location() = (*one).1;
+        return -1;
+    }
     let mask = DENY.load(Ordering::SeqCst);
     if mask != 0 && !path.is_null() && denied(std::ffi::CStr::from_ptr(path).to_bytes(), mask) {
         DENIED.fetch_add(1, Ordering::SeqCst);
